@@ -558,8 +558,9 @@ func (g *genSession) genDatagram(r *rand.Rand, cfg genCfg, first bool) dgram {
 	hdr, hdrTxt := p.header(r, ver)
 	msg := hdr
 	var recs []string
-	longPad := 0  // longest set padding of more than 4 octets in this datagram (names a regression of F16: tag K3)
-	shortRec := 0 // length of the last data record of at most 4 octets in this datagram (names a regression of K2)
+	longPad := 0      // longest set padding of more than 4 octets in this datagram (names a regression of F16: tag K3)
+	shortRec := 0     // length of the last data record of at most 4 octets in this datagram (names a regression of K2)
+	noFields := false // the datagram holds a data set for a template without fields (expectation tag F30: any error list)
 	ns := 1 + r.Intn(4)
 	// templates announced in this datagram take effect for later sets of the same datagram
 	for i := 0; i < ns; i++ {
@@ -573,6 +574,15 @@ func (g *genSession) genDatagram(r *rand.Rand, cfg genCfg, first bool) dgram {
 		switch {
 		case kk < 5 || (kk < 8 && false): // template set
 			var body []byte
+			if !cfg.wfOnly && r.Intn(5) == 0 {
+				// a template record with field count 0 (the withdrawal format of RFC 7011 section 8.1) in front of the other
+				// records of the set — other octets follow it, so it is parsed, and both decoders install it as a template
+				// without fields: data sets for this id cannot be decoded from now on
+				t0 := tpl{id: 256 + r.Intn(8)}
+				body = append(body, p.encTplRec(t0)...)
+				g.known[refKey{ak, t0.id}] = t0
+				g.order[ak] = append(g.order[ak], t0.id)
+			}
 			for j := 0; j < 1+r.Intn(2); j++ {
 				t := p.genTpl(r, 256+r.Intn(8), false, cfg.wfOnly)
 				if ids := g.order[ak]; len(ids) > 0 && r.Intn(3) == 0 {
@@ -583,7 +593,7 @@ func (g *genSession) genDatagram(r *rand.Rand, cfg genCfg, first bool) dgram {
 				}
 				body = append(body, p.encTplRec(t)...)
 				if len(t.fields) == 0 {
-					// a 4-octet template record is not parsed (the `> 4` rule): not well-formed for the oracle
+					// a 4-octet template record at the end of a set is not parsed (the `> 4` rule): not well-formed for the oracle
 					wf = false
 				}
 				g.known[refKey{ak, t.id}] = t
@@ -630,6 +640,14 @@ func (g *genSession) genDatagram(r *rand.Rand, cfg genCfg, first bool) dgram {
 				} else {
 					t = g.known[refKey{ak, t.id}]
 				}
+			}
+			if len(t.all()) == 0 && !cfg.wfOnly {
+				// data for a template without fields: no record can be decoded from this set, whatever its body; like every
+				// other undecodable set it is to be skipped by its declared length — the message is returned and the records
+				// of its other sets are all there (C09; which error is reported is not prescribed: expectation tag F30)
+				noFields = true
+				msg = append(msg, p.set(r, cfg, t.id, rndBytes(r, r.Intn(20)), &wf)...)
+				continue
 			}
 			var body []byte
 			nr := 1 + r.Intn(5)
@@ -704,7 +722,9 @@ func (g *genSession) genDatagram(r *rand.Rand, cfg genCfg, first bool) dgram {
 		// "K3 <n> <expected line>" / "K2 <n> <expected line>": the full expected decode is checked as for every
 		// other case; the tag only lets runDecode NAME a failure (long padding read as a record / short records
 		// dropped as padding: both repaired by the padding fix, known_findings F16 / K2)
-		if longPad > 0 {
+		if noFields {
+			d.expect = "F30 msg " + hdrTxt + " errs=* recs=" + strings.Join(recs, "")
+		} else if longPad > 0 {
 			d.expect = fmt.Sprintf("K3 %d %s", longPad, d.expect)
 		} else if shortRec > 0 {
 			d.expect = fmt.Sprintf("K2 %d %s", shortRec, d.expect)
@@ -960,6 +980,16 @@ func (p *flowProto) runDecode(st *state, line, expect string) (string, string) {
 			verdict = "fail:roundtrip decoded message differs from the abstract message: want " + clip(exp, 400) + " got " + clip(ln, 400)
 		}
 	case strings.HasPrefix(expect, "K2 ") || strings.HasPrefix(expect, "K3 "):
+	case strings.HasPrefix(expect, "F30 "):
+		// the datagram holds a data set for a template without fields: the message must be returned with exactly the
+		// records of its other sets; the error list is not compared
+		got := ln
+		if !out.nilMsg {
+			got = "msg " + out.hdr + " errs=* recs=" + strings.Join(out.recs, "")
+		}
+		if got != expect[4:] {
+			verdict = "fail:roundtrip a data set for a template without fields (template record with field count 0) disturbed its neighbours: want " + clip(expect[4:], 400) + " got " + clip(ln, 400)
+		}
 	case expect != "" && expect != "-" && ln != expect:
 		verdict = "fail:roundtrip decoded message differs from the abstract message: want " + clip(expect, 400) + " got " + clip(ln, 400)
 	}
